@@ -35,8 +35,13 @@ def records(data: bytes, fmt: str):
 def sub_records(data: bytes, fmt: str):
   """finer records: SCC words, TTML attributes, tokens separated by blanks otherwise."""
   out = []
+  if fmt in ("srt", "vtt"):
+    # inline tags, entities and timestamps are records of their own in the cue-text grammars
+    for m_ in re.finditer(rb"</?[^<>\n]*>|&[#\w]*;?|\d+:\d+[:.,\d]*", data):
+      out.append((m_.start(), m_.end()))
   for m_ in re.finditer(rb"[^\s]+", data):
     out.append((m_.start(), m_.end()))
+  out.sort()
   return out or [(0, len(data))]
 
 
